@@ -87,7 +87,27 @@ Silent(L) == \A i \in DOMAIN L : L[i].k \notin {"new_span", "event", "follows", 
 \* not the attribute's, e.g. an enclosing span the caller entered) are those of the plain twin
 Lifecycle(L) == LET s == SelectSeq(L, LAMBDA x : x.k \in {"enter", "exit", "close"}) IN [i \in DOMAIN s |-> <<s[i].k, s[i].id>>]
 
+\* under a collector that accepts exactly the levels up to k (and says so in its hint): the span exists iff its level is
+\* accepted, and each ret / err event is delivered iff ITS level is accepted - whatever the span's level is (the shortcuts
+\* in front of the collector are evaluated per callsite; C01 for the callsites the attribute generates)
+XK(x, k) == [x EXCEPT !.events = SelectSeq(x.events, LAMBDA e : e.level <= k)]
+NoSpanCall(L, c) == SpanLines(L, c) = {}
+EventsNoSpan(L, c, x) ==
+  LET ev == SelectSeq([i \in DOMAIN L |-> i], LAMBDA i : L[i].k = "event" /\ L[i].call = c) IN
+  /\ Len(ev) = Len(x.events)
+  /\ \A n \in DOMAIN ev :
+       LET e == L[ev[n]] IN
+       /\ e.level = x.events[n].level /\ e.target = x.target
+       /\ FieldSet(e.fields) = {<<x.events[n].field, x.events[n].v>>}
+
 Env(L) == L[1]
+AcceptThr(k, I, P, X) ==
+  /\ TwinEq(I, P)
+  /\ Silent(P)
+  /\ \A c \in DOMAIN X : LET cc == c - 1  x == XK(X[c], k) IN
+       IF X[c].level <= k
+       THEN SpanOk(I, cc, x, Env(I)) /\ Bracket(I, cc) /\ NothingElse(I, cc) /\ Events(I, cc, x) /\ Closed(I, cc)
+       ELSE NoSpanCall(I, cc) /\ EventsNoSpan(I, cc, x)
 Accept(mode, I, P, X) ==
   /\ TwinEq(I, P)
   /\ Silent(P)
